@@ -44,8 +44,19 @@ def showOut (attrLen : Nat) (o : Out) : String :=
   let head := s!"{showStatus o.status} {o.msgs.length}"
   if o.msgs.isEmpty then head else head ++ " | " ++ " | ".intercalate (o.msgs.map (showMsg attrLen))
 
+def showNlri (x : Nlri) : String :=
+  s!"{x.id}:{x.size}:{x.fam}:{if x.v4 then 1 else 0}:{x.nh}:{x.nhLen}"
+
+def showNats (l : List Nat) : String := joinWith "," (l.map toString)
+
+/-- an input in the format `pack run` reads -/
+def showInput (i : Input) : String :=
+  s!"pack run {i.M} {i.attrDef} {i.attrNoDef} {showNats i.negotiated} {showNats i.simple} {showNats i.famOrder} {if i.includeWithdraw then 1 else 0} {joinWith "," (i.anns.map showNlri)} {joinWith "," (i.wds.map showNlri)}"
+
 def packLine (ws : List String) : String :=
   match ws with
+  | ["witness", "unfit"] => showInput unfitInput
+  | ["witness", "mixed"] => showInput mixedInput
   | ["run", m, ad, an, neg, simp, fo, iw, anns, wds] =>
     match m.toNat?, ad.toNat?, an.toNat?, natList? neg, natList? simp, natList? fo, bool? iw, nlris? anns, nlris? wds with
     | some m, some ad, some an, some neg, some simp, some fo, some iw, some anns, some wds =>
